@@ -35,10 +35,7 @@ def oracle_eq(ck, m, four, h, x=None, co=None, tol=0.0):
             return None
         # "every ... padding mode they both accept": one raising and the other not is outside the quantifier only
         # when the input is rejected; report it, it is how a half-broken bank shows
-        kk = None
-        if x is None and ra and m == 2 and co.shape[0] * co.shape[1] == 1 and 0 < 2 * co.shape[-2] < len(hc0) - 2 and 'single memory location' in a[2]:
-            kk = 'C19-sfb-nonsep-inplace-overlap'
-        ck.fail(desc + ': %s raises (%s), the other returns' % ('nonsep' if ra else 'separable', (a if ra else b)[2][:80]), replay, known_key=kk)
+        ck.fail(desc + ': %s raises (%s), the other returns' % ('nonsep' if ra else 'separable', (a if ra else b)[2][:80]), replay)
         return 'raise'
     ok, why = same(a, b, tol)
     if ok:
@@ -49,12 +46,36 @@ def oracle_eq(ck, m, four, h, x=None, co=None, tol=0.0):
     return 'diff'
 
 
+def oracle_channels_last(ck):
+    """afb2d_nonsep on a channels-last image smaller than the filter (periodization) returns what the contiguous copy gives and
+    what the separable bank gives"""
+    import torch
+    from pytorch_wavelets.dwt import lowlevel as L_
+    hc0 = np.array([1., 2., 3., 4., -1., 2., 1., -3., 2., 1., 1., -2., 3.]); hc1 = hc0[::-1] * np.array([1., -1.] * 6 + [1.])
+    hr0 = np.array([1., 2., -1., 3., 1., 2., -2.]); hr1 = hr0[::-1].copy()
+    x = torch.tensor(gen.int_tensor(ck.rng, (1, 2, 4, 7)), dtype=torch.float64)
+    f = L_.prep_filt_afb2d_nonsep(hc0, hc1, hr0, hr1).double()
+    desc = 'afb2d_nonsep periodization L=(13,7) on a channels-last (1,2,4,7) image'
+    replay = {'oracle': 'channels-last'}
+    try:
+        a = L_.afb2d_nonsep(x.contiguous(memory_format=torch.channels_last), f, mode='periodization')
+    except Exception as e:
+        ck.fail(desc + ': raises %s: %s' % (type(e).__name__, str(e)[:100]), replay); return 'raise'
+    b = L_.afb2d_nonsep(x, f, mode='periodization')
+    if a.shape != b.shape or not torch.equal(a, b):
+        ck.fail(desc + ': differs from the result on the contiguous copy', replay); return 'diff'
+    ck.oracle_ok(('channels-last', 13, 7), group='afb')
+    return None
+
+
 def oracle(ck, extended):
     rng = ck.rng
     q = ck.tier == 'quick'
-    # deterministic witness of the recorded finding (single tiny coefficient image, length-8 filters, periodization)
+    # regression witnesses of the repaired defect (fix a82b8fe): a single tiny coefficient image with length-8 filters, and a
+    # channels-last single image with two channels and fewer rows than half the (odd) column filter, periodization
     w8a = np.array([1., 2., 3., 4., -1., 2., 1., -3.]); w8b = np.array([2., -1., 3., 1., 1., -2., 2., 1.])
     rt.guard(ck, oracle_eq, ck, 2, False, (w8a, w8b, w8a, w8b), None, gen.int_tensor(rng, (1, 1, 4, 2, 2)))
+    rt.guard(ck, oracle_channels_last, ck)
     # taps that are not float32 numbers (the shipped wavelets), double precision data: agreement to double rounding
     import pywt
     for name in ['db2', 'db3', 'sym4', 'bior2.2', 'coif1'] + ([] if q else ['db5', 'bior4.4', 'rbio3.3']):
@@ -64,6 +85,18 @@ def oracle(ck, extended):
             L = len(w.dec_lo)
             rt.guard(ck, oracle_eq, ck, m, False, fa, gen.float_tensor(ck.nprng, (1, 2, gen.pick_len(rng, L, 16), gen.pick_len(rng, L, 16))), None, 1e-12)
             rt.guard(ck, oracle_eq, ck, m, False, fs, None, gen.float_tensor(ck.nprng, (1, 2, 4, rng.randint(L // 2 + 1, 9), rng.randint(L // 2 + 1, 9))), 1e-12)
+    # long filters on tiny images (the roll / fold arithmetic far outside the usual regime: shifts of several periods), every mode,
+    # the 4-filter form with a long filter on one axis only; several channels (the one-image synthesis case is the recorded finding)
+    for Ll in ((10, 18) if q else (10, 14, 18, 20, 26)):
+        for m in MODES4:
+            c0 = gen.int_filter(rng, Ll); c1 = gen.int_filter(rng, Ll); r0 = gen.int_filter(rng, 2); r1 = gen.int_filter(rng, 2)
+            for (H, W) in ((2, 9), (9, 2), (1, 5), (4, 4), (3, 2)):
+                rt.guard(ck, oracle_eq, ck, m, False, (c0, c1, c0, c1), x=gen.int_tensor(rng, (1, 2, H, W)))
+                rt.guard(ck, oracle_eq, ck, m, True, (c0, c1, r0, r1), x=gen.int_tensor(rng, (1, 2, H, W)))
+                rt.guard(ck, oracle_eq, ck, m, True, (r0, r1, c0, c1), x=gen.int_tensor(rng, (1, 2, H, W)))
+            for (h, w) in ((1, 5), (5, 1), (2, 2), (1, 1)):
+                rt.guard(ck, oracle_eq, ck, m, False, (c0, c1, c0, c1), co=gen.int_tensor(rng, (1, 2, 4, h, w)))
+                rt.guard(ck, oracle_eq, ck, m, True, (c0, c1, r0, r1), co=gen.int_tensor(rng, (1, 2, 4, h, w)))
     for it in range((120 if q else 1200) * (3 if extended else 1)):
         Lc = rng.randint(2, 8 if q else 14); m = rng.choice(MODES4)
         four = rng.random() < 0.5
@@ -92,7 +125,10 @@ def replay(ck, path):
     if not f:
         print('replay file names no failing input: %s' % d.get('broken_obligations'))
         return 1
-    oracle_eq(ck, f['m'], f['four'], tuple(arr_from(a) for a in f['h']), x=arr_from(f['x']), co=arr_from(f['co']), tol=f.get('tol', 0.0))
+    if f.get('oracle') == 'channels-last':
+        oracle_channels_last(ck)
+    else:
+        oracle_eq(ck, f['m'], f['four'], tuple(arr_from(a) for a in f['h']), x=arr_from(f['x']), co=arr_from(f['co']), tol=f.get('tol', 0.0))
     for fl in ck.failures:
         print('REPLAY-FAILS: ' + fl['desc'])
     if not ck.failures:
